@@ -213,7 +213,11 @@ theorem C17_arm_not_weak_when_disconnected (v : Views F G) (hv : Faithful v) (s 
   · rfl
   · simp [hv.clsConnected, hc]
 
--- EXAMPLE_DISC
+-- non-vacuity: in the example state the conn ids are distinct and link 3 (index 2) is not connected after
+-- housekeeping, the two busy links are
+example : (ids exF.sys.links).Nodup ∧
+    ((afterHk exF.sys 5100).1.links.map fun l => l.core.connected) = [true, true, false] :=
+  ⟨by decide +kernel, by decide +kernel⟩
 
 /-- **Never stamped weak under the floor.**  When the tick's total bitrate (the model's f64 sum over the connected
 links) is under 100 kbit/s, or no link is connected, EVERY link leaves the arm with `weak = false`. -/
